@@ -371,20 +371,32 @@ func parseOnly(src string, mode int, fuel int64) (res runner.Result) {
 // named: the stack is sampled at consecutive ticks and the innermost frame common to all samples
 // is the function that never returns.
 func decideHang(src string, mode int) (key, detail string, done *runner.Result) {
-	// memoised: inputs of one shard share most of their reduction candidates
-	probeBad := func(s string) bool {
+	// The reduction must stay on the same loop: a candidate counts only if it exhausts the probe
+	// budget AND the innermost construct-specific parser function on its stack at that moment
+	// (signature) is the one of the original input. Memoised: inputs of one shard share most
+	// of their reduction candidates.
+	sigAt := func(s string) string {
 		k := string(rune('0'+mode)) + s
 		if v, ok := probeMemo[k]; ok {
 			return v
 		}
-		v := parseOnly(s, mode, probe(len(s))).Kind == "fuel"
+		v := "-" // finishes
+		if fr, ex := fuelStack(s, mode, probe(len(s))); ex {
+			v = signature(fr)
+		}
 		if len(probeMemo) > 200_000 {
-			probeMemo = map[string]bool{}
+			probeMemo = map[string]string{}
 		}
 		if len(s) <= 256 {
 			probeMemo[k] = v
 		}
 		return v
+	}
+	sig0 := sigAt(src)
+	probeBad := func(s string) bool { return sigAt(s) == sig0 }
+	if sig0 == "-" {
+		// (only possible if the probe budget is larger than the first-pass budget: it is not)
+		probeBad = func(s string) bool { return parseOnly(s, mode, probe(len(s))).Kind == "fuel" }
 	}
 	red := canonText(reduceText(src, mode, probeBad), probeBad)
 	hk := string(rune('0'+mode)) + red
@@ -454,7 +466,30 @@ const hangSamples = 1200
 const hangStable = 400
 
 var hangCache = map[string][2]string{}
-var probeMemo = map[string]bool{}
+var probeMemo = map[string]string{}
+
+// signature: the innermost frame that belongs to a construct-specific parser (parser.(*XxxParser).…),
+// i.e. not to the generic expression-precedence chain, the Parser helpers, the lexer or the nodes.
+// For a loop that spins at EOF or on a token nobody consumes, the loop body only runs generic
+// frames, so this is the function owning the loop.
+func signature(frames []string) string {
+	for i := len(frames) - 1; i >= 0; i-- {
+		f := frames[i]
+		if strings.HasPrefix(f, "parser.(*") && !strings.HasPrefix(f, "parser.(*ExpressionParser).") && !strings.HasPrefix(f, "parser.(*Parser).") &&
+			!strings.HasPrefix(f, "parser.(*PositionTracker).") && !strings.HasPrefix(f, "parser.(*ScopeManager).") && !strings.HasPrefix(f, "parser.(*DefaultScope).") {
+			return f
+		}
+	}
+	for i := len(frames) - 1; i >= 0; i-- {
+		if frames[i] == "parser.(*Parser).parseBlock" || frames[i] == "parser.(*Parser).parseProgram" {
+			return frames[i]
+		}
+	}
+	if len(frames) > 0 {
+		return frames[0]
+	}
+	return "?"
+}
 
 func probe(n int) int64 {
 	p := int64(300*(n+1) + 5000)
@@ -523,6 +558,25 @@ func reduceText(src string, mode int, bad func(string) bool) string {
 		keep = 1
 	}
 	tests := 0
+	// step 0: a short failing prefix by bisection over token boundaries (the failure of a large
+	// text usually sits at one place; everything behind it is irrelevant). Not monotone in
+	// general, but whatever prefix the search ends on satisfies the predicate.
+	if len(toks) > 24 {
+		lo, hi := keep+1, len(toks) // prefix(i) = text before token i; prefix(len) = whole text
+		for lo < hi && tests < 40 {
+			mid := (lo + hi) / 2
+			tests++
+			if bad(cur[:toks[mid].s]) {
+				hi = mid
+			} else {
+				lo = mid + 1
+			}
+		}
+		if hi < len(toks) && bad(cur[:toks[hi].s]) {
+			cur = cur[:toks[hi].s]
+			toks, _ = crudeTokens(cur)
+		}
+	}
 	if len(toks) > 12 {
 		head := ""
 		if keep == 1 {
